@@ -5,6 +5,7 @@ import (
 	"flag"
 	"fmt"
 	"os"
+	"os/exec"
 	"sort"
 	"strings"
 	"time"
@@ -13,12 +14,14 @@ import (
 	"verifharness/evidence"
 	"verifharness/props/c18"
 	"verifharness/subproc"
+	"verifharness/world"
 )
 
 func main() {
 	cli.Main(map[string]func([]string){
 		"C18":       run,
 		"c18worker": func([]string) { subproc.Serve(c18.Handle) },
+		"c18race":   racePass,
 	}, nil)
 }
 
@@ -177,7 +180,9 @@ func run(args []string) {
 		}
 		total.Merge(st)
 	}
+	racePassResult := runRacePass()
 	cov := map[string]any{
+		"race_detector_pass": racePassResult,
 		"states": total.Execs, "transitions": total.Points, "traces_validated_against_impl": total.Execs,
 		"samples": samples, "exhaustive": exhaustive && !harnessErr, "scenarios": perScenario, "distinct_outcomes": len(total.Outcomes),
 		"rule": "states = complete executions (schedules) explored, transitions = scheduling points executed; for every scenario all schedules with at most the completed number of preemptions (deviation-bounded DFS: replay a choice prefix, then always continue the running thread) at the lock and atomic operations of the rewritten packages",
@@ -199,6 +204,56 @@ func run(args []string) {
 		os.Exit(2)
 	}
 	rep.Exit()
+}
+
+// racePass is run in the -race build of this binary (see ./check): free-running goroutines.
+func racePass([]string) {
+	var scs []c18.Scenario
+	for _, sc := range scenarios("thorough") {
+		if sc.Size == 0 { // evicting scenarios really deadlock (known finding): they would only hang
+			scs = append(scs, sc)
+		}
+	}
+	rep := c18.RacePass(scs, 6, []int{1, 4, 16})
+	logp := os.Getenv("VERIF_RACE_LOG")
+	b, _ := json.Marshal(rep)
+	os.WriteFile(logp+".summary.json", b, 0o644)
+}
+
+// runRacePass starts the -race build (if ./check built one) and returns its report.
+func runRacePass() map[string]any {
+	bin := os.Getenv("VERIF_C18_RACE_BIN")
+	if bin == "" {
+		return map[string]any{"ran": false, "why": "no -race build (quick tier)"}
+	}
+	dir, err := os.MkdirTemp(world.ScratchRoot(), "race")
+	if err != nil {
+		return map[string]any{"ran": false, "why": err.Error()}
+	}
+	defer os.RemoveAll(dir)
+	logp := dir + "/race"
+	cmd := exec.Command(bin, "c18race")
+	cmd.Env = append(os.Environ(), "GORACE=log_path="+logp+" halt_on_error=0 exitcode=0", "VERIF_RACE_LOG="+logp)
+	cmd.Stderr = os.Stderr
+	done := make(chan error, 1)
+	go func() { done <- cmd.Run() }()
+	select {
+	case err := <-done:
+		if err != nil {
+			return map[string]any{"ran": false, "why": "race pass failed: " + err.Error()}
+		}
+	case <-time.After(20 * time.Minute):
+		cmd.Process.Kill()
+		return map[string]any{"ran": false, "why": "race pass exceeded 20 minutes"}
+	}
+	var rep c18.RaceReport
+	if b, err := os.ReadFile(logp + ".summary.json"); err == nil {
+		json.Unmarshal(b, &rep)
+	}
+	os.Remove(logp + ".summary.json")
+	rep.Races = c18.CollectRaces(logp)
+	return map[string]any{"ran": true, "report": rep,
+		"note": "free-running goroutines in a -race build of the same harness bodies; a data-race detector pass, NOT part of the exhaustive exploration and not used for the verdict"}
 }
 
 func c18newStats() *c18.Stats {
